@@ -15,6 +15,22 @@ P = {
    "Closed-loop simulation of the real forwarding path (handle_srt_packet / forward_via_connection / send_stall_probes / flush_all_batches / send_all_datagrams) under seeded arm interleavings, all batch regimes, link loss, black holes, send errors, short and zero-progress sendmmsg, re-registration, reloads and stalls; a per-link FIFO ledger checks every send_batch call byte for byte, in order, once, the 32-datagram / one-flush-tick hold bound, the probe budget, and that only excused datagrams go missing. Sampling, not enumeration: a clean batch is evidence, not proof.",
    "Trusted: the mirrored select! glue (call order of src/sender/mod.rs at the pinned commit), hook H3 as the only way stream bytes leave, the environment models. Kernel UDP, recvmmsg and real timers are outside the simulation.",
    "§P-C01"),
+ "C02": (True, "L", "exploration",
+   "Closed-loop simulation (send side fault-free) with retransmissions of already-acknowledged numbers, duplicate probes, receiver ACK/NAK traffic and forged well-formed cumulative ACKs (stale, duplicate, >64 ahead), SRTLA ACK lists on any link, NAK singles/ranges and link resets; after every step each link's outstanding log is compared as a set with a high-water-mark-free set model, plus in-flight = |set| >= 0 and score = window/(|set|+queued+1). Seeded sampling of histories: evidence, not proof.",
+   "Trusted: the packet log exposed by the repository's own test-internals feature is the implementation's notion of outstanding packets; choices the statement leaves open (which other holder an SRTLA ACK retires, whether a NAK is charged) are read from observation. Send failures are outside the quantifier and not injected here.",
+   "§P-C02"),
+ "C04": (True, "L", "fault_enumeration",
+   "Closed-loop simulation on 2..4 uplinks with black holes, link loss, short timeouts (connected-but-timed-out links waiting out their back-off), receiver restarts / REG_ERR, run-time mode/quality/guard/timeout changes, R-flagged data and critical windows all along the stream; every routing decision after establishment is judged by an independent eligibility model (REG3 since last reset, heard within the timeout by the monitor's own stamps, not stall-gated in this decision) and a bad decision is labelled by call site (selector vs priority override). Seeded sampling of fault histories.",
+   "Trusted: the stall-gated flag read back right after a decision is the one that decision computed; the mirrored loop glue; environment models.",
+   "§P-C04"),
+ "C05": (True, "L", "exploration",
+   "Closed-loop simulation with probe copies, re-routed retransmissions, sequence strides colliding modulo 16384, an exact 5000/5001 ms expiry-boundary scenario under a silent receiver, reload removing links, and NAK lists (singles, ranges, repeats, unknown numbers) from the receiver model and forged; every NAK entry is judged against an independent ownership table and the exact charge arithmetic (+1 loss count, -100 floored at 1000, -1 in-flight) is checked per datagram. Seeded sampling of histories.",
+   "Trusted: which holder lost a NAKed number is read from the packet log after the datagram (one datagram per step). For a NAK the sender has no record for, charging any one holder or nobody is accepted.",
+   "§P-C05"),
+ "C10": (True, "L", "exploration",
+   "Closed-loop simulation in classic mode with the stall guard off from random window vectors, with R-flagged data, critical windows, SRTLA ACKs, cumulative ACKs, NAKs, resets and housekeeping ticks (some runs start in enhanced mode and switch, leaving quality caches stale); an independent re-implementation of the reference rules predicts every routing choice and every window from the observed pre-state of each step (stepwise refinement, so one divergence is localised to one event). Seeded sampling of histories.",
+   "Trusted: usable = REG3 since last reset, connected, heard within the configured timeout (monitor's own stamps); the link a NAK was charged to is taken from observation (C05 judges it).",
+   "§P-C10"),
 }
 NOT_BUILT_REASON = "no check is claimed for this property in this revision of /verif (machinery not built yet; see DESIGN.md §6 for the planned decision procedure)"
 
